@@ -84,6 +84,22 @@ def measure(job):
             if not cplx and np.iscomplexobj(y):
                 ev.append(("dtype", 1.0, "real input gave complex coefficients"))
         ev.append(("adjoint_shapes", 0.0 if (list(W.H.ishape) == list(W.oshape) and list(W.H.oshape) == list(W.ishape)) else 1.0, "Wavelet.H shapes"))
+        # the adjoint taken from either side carries the same wavelet / axes / level: Wavelet.H.H, a directly built InverseWavelet
+        # and its own adjoint must act like Wavelet.H resp. Wavelet
+        if tuple(W.oshape) == spec_osh:
+            try:
+                V = sp.linop.InverseWavelet(shape, axes=axes, wave_name=c["wave"], level=level)
+                x = rs.randn(*shape) + 1j * rs.randn(*shape)
+                cc = rs.randn(*spec_osh) + 1j * rs.randn(*spec_osh)
+                y = W(x)
+                xr = W.H(cc)
+                ny, nr = max(np.linalg.norm(y), 1e-300), max(np.linalg.norm(xr), 1e-300)
+                ev.append(("adjoint", np.linalg.norm(W.H.H(x) - y) / ny, "Wavelet.H.H vs Wavelet"))
+                ev.append(("adjoint", np.linalg.norm(V(cc) - xr) / nr if list(V.ishape) == list(spec_osh) else 1.0, "InverseWavelet(...) vs Wavelet.H"))
+                ev.append(("adjoint", np.linalg.norm(V.H(x) - y) / ny, "InverseWavelet(...).H vs Wavelet"))
+                ev.append(("adjoint", np.linalg.norm(V.H.H(cc) - xr) / nr, "InverseWavelet(...).H.H vs Wavelet.H"))
+            except Exception as e:
+                ev.append(("exception", 1.0, "InverseWavelet / double adjoint raised %r" % (e,)))
     return c, ev
 
 
